@@ -423,23 +423,26 @@ def scenario (fx : Bool) (n : String) : Option String :=
   | some (s, k) => some ((dispatch fx s k).str s)
   | none => scenarioFact fx n
 
-def answer (ws : List String) : Option String :=
+/-- `fx` selects the table of the unchanged code (false) or of the code with the proposed fixes -/
+def answerFx (fx : Bool) (ws : List String) : Option String :=
   match ws with
   | ["disp", s, k] | ["beh", s, k] =>
     match Site.ofName s, FrameKind.ofName k with
-    | some s, some k => some ((dispatch current s k).str s)
+    | some s, some k => some ((dispatch fx s k).str s)
     | none, some _ => some "unknown-site"
     | _, none => some "bad-op"
   | ["disparms", s] => match Site.ofName s with
-    | some s => some (desc current s).str
+    | some s => some (desc fx s).str
     | none => some "unknown-site"
   | ["dispctx", s] => match Site.ofName s with
-    | some s => some (desc current s).ctx.str
+    | some s => some (desc fx s).ctx.str
     | none => some "unknown-site"
   | ["dispsites"] => some (joinWith "," (sortStrings (Site.all.map Site.name)))
   | ["dispkinds"] => some kindsLine
   | ["dispfact", f] => some ((fact f).getD "bad-op")
-  | ["e2e", sc] => some ((scenario current sc).getD "bad-op")
+  | ["e2e", sc] => some ((scenario fx sc).getD "bad-op")
   | _ => none
+
+def answer (ws : List String) : Option String := answerFx current ws
 
 end Dispatch
